@@ -354,6 +354,11 @@ func (e *Engine) prettyModel(m map[string]string) map[string]string {
 	return out
 }
 
+// isErrName: package-level sentinel errors are named Err… (exported) or err… (unexported).
+func isErrName(n string) bool {
+	return strings.HasPrefix(n, "Err") || strings.HasPrefix(n, "err") || n == "EOF"
+}
+
 func truncate(s string, n int) string {
 	if len(s) > n {
 		return s[:n] + "…"
